@@ -32,8 +32,8 @@ ARG_MC = {
 # random direction: (trees, scenarios per tree) quick / thorough
 ARG_RANDOM = {'quick': (120, 60), 'thorough': (1500, 80)}
 
-ARG_DOMKEY = {'C01': 'd01', 'C02': 'd02', 'C03': 'd03', 'C04': 'd04', 'C06': 'd06', 'C07': 'd07', 'C08': 'd08', 'C09': 'd09', 'C10': 'd10'}
-ARG_PROPS = ['C01', 'C02', 'C03', 'C04', 'C06', 'C07', 'C08', 'C09', 'C10', 'DRIFT']
+ARG_DOMKEY = {'C11': 'd11', 'C01': 'd01', 'C02': 'd02', 'C03': 'd03', 'C04': 'd04', 'C06': 'd06', 'C07': 'd07', 'C08': 'd08', 'C09': 'd09', 'C10': 'd10'}
+ARG_PROPS = ['C01', 'C02', 'C03', 'C04', 'C06', 'C07', 'C08', 'C09', 'C10', 'C11', 'DRIFT']
 
 
 class ArgParseFamily:
@@ -85,8 +85,27 @@ class ArgParseFamily:
             scns.append(json.loads(m.group(1).replace('\\"', '"').replace('\\\\', '\\')))
         return states, gen, scns, d, dict(decls=decls, ctxlen=ctxlen, popts=len(popts), pairs=len(scns))
 
+    def mc_conv(self, ctx):
+        """C11: MC_Conv over the conversion declarations (one per element type x base)"""
+        thorough = ctx.tier == 'thorough'
+        d = ctx.specdir('mc')
+        ctx.vh('conv-trees', '-trees', os.path.join(d, 'conv_trees.ndjson'), '-decls', os.path.join(d, 'conv_decls.ndjson'))
+        ndecl = len(open(os.path.join(d, 'conv_decls.ndjson')).read().splitlines())
+        decls = list(range(1, ndecl + 1))
+        maxdig = 4 if thorough else 3
+        cfg = ('SPECIFICATION Spec\nCONSTANTS\n  Defects = {}\n  DeclIds = {%s}\n  MaxDig = %d\n  Emit = TRUE\n'
+               'INVARIANTS NativeAgree RenderInverse Total EmitScn\nCHECK_DEADLOCK FALSE\n' % (', '.join(map(str, decls)), maxdig))
+        rc, out = ctx.tlc(d, 'MC_Conv', cfg, workers=NCPU, timeout=3000)
+        if not ctx.tlc_ok(out):
+            raise Infra('exhaustive conversion model did not complete cleanly:\n' + ctx.tlc_error_summary(out))
+        states, gen = ctx.tlc_counts(out)
+        scns = parse_scn(out)
+        self.cat_override = (os.path.join(d, 'conv_trees.ndjson'), os.path.join(d, 'conv_decls.ndjson'))
+        return states, gen, scns, d, dict(module='MC_Conv', declarations=ndecl, maxdig=maxdig)
+
     def run(self, ctx):
         prop = ctx.prop
+        self.cat_override = None
         assumptions = [
             'TLC explores the bounded specification exhaustively; bounds are those listed under coverage.mc_bounds',
             'conversion of floats and durations is specified on the finite literal table spec/FTab.tla only (Go standard library is trusted for rounding)',
@@ -100,8 +119,10 @@ class ArgParseFamily:
         samples = []
         domcount = 0
         drift = 0
-        if prop in ARG_MC or prop == 'C02':
-            if prop == 'C02':
+        if prop in ARG_MC or prop in ('C02', 'C11'):
+            if prop == 'C11':
+                mc_states, mc_trans, scns, d, mcinfo = self.mc_conv(ctx)
+            elif prop == 'C02':
                 mc_states, mc_trans, scns, d, mcinfo = self.mc_spell(ctx)
                 if ctx.tier == 'quick' and len(scns) > 120000:      # replay a seeded sample of the enumerated pairs in the quick tier
                     import random
@@ -116,9 +137,12 @@ class ArgParseFamily:
                     s.update({'fam': 'argparse', 'id': i, 'tags': ['mc']})
                     f.write(json.dumps(s) + '\n')
             cat = os.path.join(ROOT, 'catalog', 'argparse.ndjson')
+            catdecls = os.path.join(d, 'catalog_decls.ndjson')
+            if self.cat_override:
+                cat, catdecls = self.cat_override
             rec = os.path.join(ctx.work, 'mc_rec.ndjson')
             ctx.vh('run', '-trees', cat, '-scen', scen, '-out', rec, '-workers', NCPU)
-            bad, stats, n = ctx.validate('mcv', 'Trace_ArgParse', rec, os.path.join(d, 'catalog_decls.ndjson'), ARG_PROPS)
+            bad, stats, n = ctx.validate('mcv', 'Trace_ArgParse', rec, catdecls, ARG_PROPS)
             mc_records = n
             domcount += stats.get(ARG_DOMKEY[prop], 0)
             drift += len(bad['DRIFT'])
@@ -620,7 +644,7 @@ class DeterminismFamily(SessionFamily):
 
 
 ARGFAM = ArgParseFamily()
-PROPS = {p: ARGFAM for p in ['C01', 'C02', 'C03', 'C04', 'C06', 'C07', 'C08', 'C09', 'C10']}
+PROPS = {p: ARGFAM for p in ['C01', 'C02', 'C03', 'C04', 'C06', 'C07', 'C08', 'C09', 'C10', 'C11']}
 PROPS['C20'] = ClosestFamily()
 SESSFAM = SessionFamily()
 for _p in ['C05', 'C12', 'C13', 'C14']:
